@@ -16,6 +16,7 @@ import (
 	"google.golang.org/grpc/metadata"
 	"google.golang.org/grpc/peer"
 	"google.golang.org/grpc/status"
+	"google.golang.org/protobuf/proto"
 	"google.golang.org/protobuf/types/known/anypb"
 	"google.golang.org/protobuf/types/known/wrapperspb"
 )
@@ -548,6 +549,19 @@ func (w *World) RunCall(conn grpc.ClientConnInterface, spec *CallSpec) {
 			w.Log(Event{Actor: actor, Op: "cancel"})
 		case "sleep":
 			w.Sleep(op.D)
+		case "waitpeer":
+			// wait until the scripted peer has nothing more to say (it parks at raw:rpc-done
+			// or has finished) - the explorer decides when the caller then proceeds
+			w.WaitUntil("c:waitpeer", func() bool {
+				for _, th := range w.S.Threads {
+					if strings.HasPrefix(th.Name, "net:") && strings.HasSuffix(th.Name, ":handler") {
+						if !(th.Done || (th.Parked && th.Site == "raw:rpc-done")) {
+							return false
+						}
+					}
+				}
+				return true
+			})
 		case "waitfault":
 			w.WaitUntil("c:waitfault", func() bool {
 				for _, e := range w.Events {
@@ -599,3 +613,5 @@ func (w *World) NameChan(ch grpctunnel.TunnelChannel, name string) {
 	}
 	m[ch] = name
 }
+
+func protoMarshal(m *wrapperspb.BytesValue) ([]byte, error) { return proto.Marshal(m) }
